@@ -482,6 +482,69 @@ func (e *Enc) loopCands(fr *Frame, li *loopInfo) []*invCand {
 				return fmt.Sprintf("(or (= (sarr %s) 0) (>= (sarr %s) %s))", v, v, fr.a0), nil
 			}
 			li.cands = append(li.cands, c)
+		case *types.Map, *types.Pointer:
+			if fr.inl {
+				continue
+			}
+			e.n++
+			c := &invCand{id: e.n, auto: true, name: fmt.Sprintf("loop %d auto owned(%s)", li.ord, phiName(ph))}
+			c.eval = func(st *State, phiVal func(*ssa.Phi) string) (string, error) {
+				v := phiVal(ph)
+				return fmt.Sprintf("(or (= %s 0) (>= %s %s))", v, v, fr.a0), nil
+			}
+			li.cands = append(li.cands, c)
+		}
+	}
+	// heap-resident containers of local objects: owned(load(alloc.field))
+	if !fr.inl {
+		ncand := 0
+		for _, b := range fr.fn.Blocks {
+			if b == li.head || !b.Dominates(li.head) {
+				continue
+			}
+			for _, in := range b.Instrs {
+				al, ok := in.(*ssa.Alloc)
+				if !ok {
+					continue
+				}
+				ref, ok := fr.vals[al]
+				if !ok {
+					continue
+				}
+				el := al.Type().Underlying().(*types.Pointer).Elem()
+				var addrs []*Addr
+				var names []string
+				switch u := el.Underlying().(type) {
+				case *types.Slice, *types.Map, *types.Pointer:
+					addrs = append(addrs, e.addrOfRef(ref, el))
+					names = append(names, al.Comment)
+				case *types.Struct:
+					for i := 0; i < u.NumFields(); i++ {
+						switch u.Field(i).Type().Underlying().(type) {
+						case *types.Slice, *types.Map, *types.Pointer:
+							addrs = append(addrs, &Addr{heap: e.fieldHeap(el, u, i), loc: Loc{ref}, typ: u.Field(i).Type()})
+							names = append(names, al.Comment+"."+u.Field(i).Name())
+						}
+					}
+				}
+				for i, a := range addrs {
+					if ncand >= 40 {
+						break
+					}
+					ncand++
+					a := a
+					e.n++
+					c := &invCand{id: e.n, auto: true, name: fmt.Sprintf("loop %d auto owned(%s)", li.ord, names[i])}
+					c.eval = func(st *State, phiVal func(*ssa.Phi) string) (string, error) {
+						v := e.load(fr, st, a)
+						if e.d.sortOf(a.typ) == "Slice" {
+							return fmt.Sprintf("(or (= (sarr %s) 0) (>= (sarr %s) %s))", v, v, fr.a0), nil
+						}
+						return fmt.Sprintf("(or (= %s 0) (>= %s %s))", v, v, fr.a0), nil
+					}
+					li.cands = append(li.cands, c)
+				}
+			}
 		}
 	}
 	return li.cands
